@@ -118,7 +118,11 @@ WarmUps == <<
       Msg("duplicate", "m1", "p2"), Msg("deliver", "m1", "p1"), Tk(1)>>,
     \* 3: p1 retained with a negative score, p2 connected
     <<Con("p1"), Con("p2"), E2("graft", "p1", "t1"), Msg("reject", "m1", "p1") @@ [reason |-> "validation failed"],
-      Tk(2), Rf, E1("disconnect", "p1"), Tk(1)>>
+      Tk(2), Rf, E1("disconnect", "p1"), Tk(1)>>,
+    \* 4: p1 retained (score < 0) with a mesh-delivery counter of 2 (a parameter update must re-cap retained peers too)
+    <<Con("p1"), Con("p2"), E2("graft", "p1", "t1"), Msg("deliver", "m2", "p1"), Msg("deliver", "m3", "p1"),
+      Msg("reject", "m1", "p1") @@ [reason |-> "validation failed"], [e |-> "penalty", p |-> "p1", n |-> 2],
+      [e |-> "penalty", p |-> "p1", n |-> 2], E1("disconnect", "p1")>>
 >>
 WarmUp == IF Warm = 0 THEN <<>> ELSE WarmUps[Warm]
 
